@@ -113,6 +113,7 @@ struct Event {
     std::vector<int> args;
     std::vector<int> aliases;
     std::vector<int> rts;
+    int repeat = 1;    // call: make the same call this many times
     int fork = 0;      // run in a forked child (abort probe)
     int resolve = 0;   // use M::fn.resolve instead of M::fn()
     int final_as = -1; // call: make the virtual_ptr with final<K<final_as>> on
